@@ -630,7 +630,8 @@ HierFamily ==
             w \in 0..3, n \in {"lib", "user", "userbase"}, s \in SplitSeqs(d)}
         \* the two dedicated shapes: own element replaces the inherited one / nested class shadows a library class
         \cup {PV(d, 1, FALSE, w, n, s, "Real", 0, "", "", TRUE, "", <<>>, c[1], c[2]) :
-            w \in {0, 1}, n \in {"lib", "user", "userbase"}, s \in SplitSeqs(d), c \in {<<TRUE, FALSE>>, <<FALSE, TRUE>>, <<TRUE, TRUE>>}}
+            w \in (IF Wide THEN {0, 1} ELSE {0}), n \in {"lib", "user", "userbase"},
+            s \in (IF Wide \/ d < 3 THEN SplitSeqs(d) ELSE {}), c \in {<<TRUE, FALSE>>, <<FALSE, TRUE>>, <<TRUE, TRUE>>}}
         \cup {PV(d, 1, FALSE, w, "lib", s, l[1], l[2], l[3], l[4], l[5], "", <<>>, FALSE, FALSE) :
             w \in (IF Wide THEN {0, 1} ELSE {0}),
             s \in (IF Wide \/ d < 3 THEN PlainSplits(d) ELSE {[i \in 1..d |-> "none"]}), l \in LeafShapes}
@@ -658,6 +659,7 @@ ModsFamily ==
             : s \in PlainSplits(d), xt \in {"Real", "aR", "aaR"}} : d \in 1..MaxDepth} :
         \* attribute kinds other than start / value are exercised on the plain shapes only
         /\ (v.attr \notin {"start", "value"} => v.xtype = "Real" /\ v.xpre = "" /\ ~v.same)
+        /\ (v.xpre # "" => v.attr = "value" \/ Wide)          \* a parameter's value stays an attribute, a variable's becomes an equation
         /\ (v.attr \in {"fixed", "unit"} => \A j \in DOMAIN v.mods : v.mods[j].e = "lit")
         /\ (v.xtype # "Real" => v.xpre = "" /\ ~v.same /\ \E j \in DOMAIN v.mods : v.mods[j].k \in {"type", "decl"})
         /\ (v.same => \E j \in DOMAIN v.mods : v.mods[j].e = "ref")
